@@ -643,15 +643,9 @@ impl FunctionCompiler<'_> {
 
         // todo: don't do popping
         while let Some(frame) = self.defer_stack.last().cloned() {
-            // the exit block of every Expr::Block contains the instructions for running
-            // the defers. This break instruction jumps to that exit block.
-            // therefore, we only need to insert extra defer handling for everything OTHER
-            // than the block we are breaking to.
-            if let Some(id) = frame.id {
-                if id == label {
-                    break;
-                }
-            }
+            // only the defers that have been registered so far (the ones that were reached before
+            // this jump) are in the frames. The exit block of an Expr::Block doesn't run any defers
+            // itself, so the defers of the block we are breaking to have to be run here as well.
 
             // do it in reverse to make sure later defers can still rely on the allocations of
             // previous defers
@@ -660,6 +654,10 @@ impl FunctionCompiler<'_> {
             }
 
             used_frames.push(self.defer_stack.pop().unwrap());
+
+            if frame.id == Some(label) {
+                break;
+            }
         }
 
         self.defer_stack.extend(used_frames.into_iter().rev());
@@ -1401,6 +1399,17 @@ impl FunctionCompiler<'_> {
                     .flatten();
 
                 if !no_eval {
+                    // the end of the block was reached, so every defer of this block was reached too.
+                    // unwind them here (and not in the exit block, which is also the target of breaks
+                    // that happened before some of the defers were reached).
+                    // do it in reverse to make sure later defers can still rely on the allocations of
+                    // previous defers
+                    let defer_frame = self.defer_stack.last().cloned().expect("we just pushed this");
+                    debug_assert_eq!(defer_frame.id, scope_id);
+                    for defer in defer_frame.defers.iter().rev() {
+                        self.compile_expr(*defer);
+                    }
+
                     if let Some(value) = value {
                         self.builder
                             .ins()
@@ -1470,19 +1479,9 @@ impl FunctionCompiler<'_> {
                 self.builder.switch_to_block(exit_block);
                 self.builder.seal_block(exit_block);
 
-                // unwind our defers
+                // the defers were already unwound, either at the end of the body or by each break
 
-                let defer_frame = self.defer_stack.pop().expect("we just pushed this");
-
-                if !no_eval || scope_id.is_some() {
-                    debug_assert_eq!(defer_frame.id, scope_id);
-
-                    // do it in reverse to make sure later defers can still rely on the allocations of
-                    // previous defers
-                    for defer in defer_frame.defers.iter().rev() {
-                        self.compile_expr(*defer);
-                    }
-                }
+                self.defer_stack.pop().expect("we just pushed this");
 
                 if final_ty.into_real_type().is_some() {
                     Some(self.builder.block_params(exit_block)[0])
